@@ -6,6 +6,7 @@ import (
 	"context"
 	"errors"
 
+	"github.com/libp2p/go-libp2p/core/event"
 	"github.com/libp2p/go-libp2p/core/network"
 	"github.com/libp2p/go-libp2p/core/peer"
 	"github.com/libp2p/go-libp2p/core/protocol"
@@ -54,11 +55,24 @@ func VfAdmission() {
 	}
 	d.rtPeerLoop()
 	wasMember := d.routingTable.Find(cand) != ""
-	viaEvent := vfBool("viaProtocolEvent")
-	if viaEvent {
-		handlePeerChangeEvent(d, cand)
-	} else {
+	// how the node hears about the peer: found (connected peers, lookups), or one of
+	// the two identify events, delivered through the real subscriber loop
+	how := vfChoose("heardVia", 4)
+	viaEvent := how != 0
+	switch how {
+	case 0:
 		d.peerFound(cand)
+	case 1:
+		handlePeerChangeEvent(d, cand)
+	default:
+		bus := &vfBus{}
+		e.host.bus = bus
+		vfAssert(d.startNetworkSubscriber() == nil && len(bus.subs) == 1, "admission/subscribes")
+		if how == 2 {
+			bus.subs[0].out <- event.EvtPeerProtocolsUpdated{Peer: cand}
+		} else {
+			bus.subs[0].out <- event.EvtPeerIdentificationCompleted{Peer: cand}
+		}
 	}
 	vfWaitIdle()
 	isMember := d.routingTable.Find(cand) != ""
